@@ -71,9 +71,6 @@ Qed.
 
 (* ------------------------------------------------------------------------------------- split, then merge *)
 
-Definition no_trailing_one (sh : list nat) (dim : nat) : Prop :=
-  length sh <= 3 \/ last sh 0 <> 1 \/ dim = length sh - 1.
-
 Lemma remerged_shape sh dim :
   dim < length sh -> no_trailing_one sh dim ->
   merged_shape (trim_ones (set_nth dim 1 sh)) dim (nth dim sh 0) = sh.
@@ -125,9 +122,11 @@ Section RT.
   (** entries of a piece's affine outside the translation column are the parent's *)
   Lemma shifted_col A dim i B j : shifted_by A dim i B -> j < 3 -> col3 B j = col3 A j.
   Proof.
-    intros H Hj. unfold col3. f_equal; [|f_equal; [|f_equal]].
-    all: match goal with |- mentry B ?r j = _ => pose proof (H r j ltac:(lia) ltac:(lia)) as G end;
-      replace (j =? 3) with false in G by (symmetry; apply Nat.eqb_neq; lia); rewrite andb_false_r in G; exact G.
+    intros H Hj. unfold col3.
+    assert (G : forall r, r < 4 -> mentry B r j = mentry A r j).
+    { intros r Hr. pose proof (H r j Hr ltac:(lia)) as G.
+      replace (j =? 3) with false in G by (symmetry; apply Nat.eqb_neq; lia). rewrite andb_false_r in G. exact G. }
+    rewrite !G by lia. reflexivity.
   Qed.
 
   Lemma shifted_trans_diff A dim i B B' :
@@ -249,7 +248,7 @@ Section RT.
           -- rewrite Hoth by (try assumption; lia). pose proof (Hsp0 H3 i dim Hi ltac:(lia)) as G.
              replace (i <? 3) with false in G by (symmetry; apply Nat.ltb_ge; exact Hi3). cbn [andb] in G. rewrite G. reflexivity.
         * rewrite Hoth by (try assumption; lia). pose proof (Hsp0 H3 i k Hi Hk) as G.
-          destruct ((i <? 3) && (k =? 3)); [rewrite G; change (inject_Z (Z.of_nat 0)) with 0%Q; ring | rewrite G; reflexivity].
+          destruct ((i <? 3) && (k =? 3)); [rewrite G; unfold A; change (inject_Z (Z.of_nat 0)) with 0%Q; ring | rewrite G; reflexivity].
       + rewrite (Hns H3), (Hns0 H3). reflexivity.
     - (* slice dim *)
       rewrite (merge_slice_law unitv ps (Some dim) r p0 rest Eps Hr).
@@ -269,3 +268,93 @@ Section RT.
       unfold pad_zeros. rewrite <- Es, (in_bounds_length _ _ Hb), Nat.sub_diag. apply app_nil_r.
   Qed.
 End RT.
+
+(* ------------------------------------------------------------------------------------- merge, then split *)
+
+Lemma nth_repeat_lt {A} (x d : A) : forall m j, j < m -> nth j (repeat x m) d = x.
+Proof. induction m as [|m IH]; intros j H; [lia|]. destruct j; cbn [repeat nth]; [reflexivity | apply IH; lia]. Qed.
+
+Lemma nth_pad_ones_dim sh dim : (dim < length sh -> nth dim sh 0 = 1) -> nth dim (pad_ones (S dim) sh) 0 = 1.
+Proof.
+  intros H. unfold pad_ones. destruct (Nat.lt_ge_cases dim (length sh)) as [Hd|Hd].
+  - rewrite app_nth1 by exact Hd. apply H, Hd.
+  - rewrite app_nth2 by exact Hd. apply nth_repeat_lt. lia.
+Qed.
+
+(** splitting a merged shape along the merge axis gives back the (trimmed) input shape *)
+Lemma resplit_shape sh dim n :
+  3 <= length sh -> (dim < length sh -> nth dim sh 0 = 1) ->
+  trim_ones (set_nth dim 1 (merged_shape sh dim n)) = trim_ones sh.
+Proof.
+  intros H3 Hs. unfold merged_shape. rewrite set_nth_set_nth.
+  rewrite <- (nth_pad_ones_dim sh dim Hs) at 1. rewrite set_nth_nth_id.
+  unfold pad_ones. apply trim_ones_app_ones, H3.
+Qed.
+
+(** the voxel of input [i] that voxel [idx] of piece [i] of the merged array comes from *)
+Lemma resplit_src sh dim n i idx k :
+  (dim < length sh -> nth dim sh 0 = 1) ->
+  sh = trim_ones sh ++ repeat 1 k -> in_bounds (trim_ones sh) idx = true ->
+  merge_src sh dim (piece_src (length (merged_shape sh dim n)) dim i idx) = idx ++ repeat 0 k.
+Proof.
+  intros Hs Hk Hb. set (P := trim_ones sh) in *.
+  pose proof (in_bounds_length _ _ Hb) as Hli.
+  assert (HP : length sh = length P + k) by (rewrite Hk at 1; rewrite app_length, repeat_length; reflexivity).
+  unfold merge_src, piece_src. rewrite set_nth_set_nth, merged_shape_length.
+  apply (nth_ext _ _ 0 0).
+  - rewrite firstn_length, set_nth_length, pad_zeros_length, app_length, repeat_length. lia.
+  - intros j _. rewrite nth_firstn, nth_set_nth, nth_pad_zeros, pad_zeros_length, nth_app_default.
+    destruct (Nat.ltb_spec j (length sh)) as [Hj|Hj]; [|symmetry; apply nth_overflow; lia].
+    destruct (Nat.eqb_spec j dim) as [->|Hn]; cbn [andb]; [|reflexivity].
+    replace (dim <? Nat.max (Nat.max (S dim) (length sh)) (length idx)) with true by (symmetry; apply Nat.ltb_lt; lia).
+    symmetry. apply (in_bounds_coord_zero P idx dim Hb).
+    rewrite <- (nth_app_default P 1 k dim), <- Hk. rewrite (nth_indep sh 1 0 Hj). apply Hs, Hj.
+Qed.
+
+Section MS.
+  Variable unitv : vec -> vec.
+
+  (** C05 (image), second half: splitting a merged image along the merge dim returns, in order, pieces that
+      carry exactly the inputs' voxels (shape: the input shape without trailing singleton dims beyond 3) *)
+  Lemma merge_split_law ims odim r im0 rest dim :
+    ims = im0 :: rest -> uniform ims (ishape im0) -> 3 <= length (ishape im0) ->
+    resolve_merge_dim (ishape im0) odim = Ok dim ->
+    from_sequence_img unitv ims odim = Ok r ->
+    exists ps, split_img r (Some dim) = Ok ps /\ length ps = length ims /\
+      forall i, i < length ims ->
+        let p := nth i ps im0 in
+        ishape p = trim_ones (ishape im0) /\ idata p = idata (nth i ims im0) /\ islice p = islice r /\
+        (3 <= dim -> iaff p = iaff r).
+  Proof.
+    intros Eims Hu H3 Hres Hr. set (sh := ishape im0) in *.
+    destruct (merge_data_law unitv ims odim r im0 rest Eims Hu Hr) as (dim' & Hres' & Hrsh & Hrwf & Hdata).
+    fold sh in Hres'. rewrite Hres in Hres'. injection Hres' as <-. fold sh in Hrsh, Hdata.
+    destruct (resolve_merge_dim_ok _ _ _ Hres) as [_ Hs]. fold sh in Hs.
+    assert (Hdl : dim < length (ishape r)) by (rewrite Hrsh, merged_shape_length; lia).
+    assert (Hnd : nth dim (ishape r) 0 = length ims).
+    { rewrite Hrsh. unfold merged_shape. apply nth_set_nth_same. rewrite pad_ones_length. lia. }
+    assert (Hex : exists ps, split_img_at r dim = Ok ps).
+    { unfold split_img_at. rewrite (nth_error_nth' _ 0 Hdl). eauto. }
+    destruct Hex as [ps Hps]. exists ps. split; [exact Hps|].
+    destruct (split_law r dim ps im0 Hps Hrwf) as (_ & Hl & Hp). rewrite Hnd in Hl. split; [exact Hl|].
+    intros i Hi. rewrite <- Hl in Hi. cbn zeta. destruct (Hp i Hi) as (Esh & Hwp & Esl & Hget & _ & Hns).
+    assert (Esh' : ishape (nth i ps im0) = trim_ones sh) by (rewrite Esh, Hrsh; apply resplit_shape; assumption).
+    split; [exact Esh'|]. split; [|split; [exact Esl | exact Hns]].
+    rewrite Hl in Hi. set (p := nth i ps im0) in *. set (im := nth i ims im0).
+    destruct (Hu im (nth_In ims im0 Hi)) as [Eim [Hwim _]].
+    destruct (trim_ones_prefix sh) as [k Hk]. set (P := trim_ones sh) in *.
+    destruct Hwp as [Hwp _].
+    transitivity (adata (tabulate (ashape (iarr p)) (aget (iarr p)))); [rewrite tabulate_aget by exact Hwp; reflexivity|].
+    transitivity (adata (tabulate (ashape (iarr im)) (aget (iarr im)))); [|rewrite tabulate_aget by exact Hwim; reflexivity].
+    unfold tabulate. cbn [adata iarr ashape]. rewrite Eim, Esh'. rewrite Hk at 1.
+    rewrite all_indices_app_ones, map_map. apply map_ext_in. intros idx Hin. apply all_indices_in in Hin.
+    f_equal. unfold iarr in Hget. cbn [ishape] in Hget. change (aget (iarr p) idx = aget (iarr im) (idx ++ repeat 0 k)).
+    unfold iarr at 1. rewrite Hget by (rewrite Esh'; exact Hin).
+    assert (Hsrc : in_bounds (ishape r) (piece_src (length (ishape r)) dim i idx) = true).
+    { apply piece_src_in_bounds; [exact Hdl | lia|]. rewrite piece_shape_eq by exact Hdl. rewrite <- Esh, Esh'. exact Hin. }
+    change {| ashape := ishape r; adata := idata r |} with (iarr r). rewrite (Hdata _ Hsrc).
+    assert (Ei : nth dim (piece_src (length (ishape r)) dim i idx) 0 = i).
+    { unfold piece_src. apply nth_set_nth_same. rewrite pad_zeros_length. lia. }
+    rewrite Ei. fold im. f_equal. rewrite Hrsh. apply resplit_src; assumption.
+  Qed.
+End MS.
